@@ -13,12 +13,17 @@
 (*        exact = 1 iff the scaled floats were integers to 1e-7.  The      *)
 (*        cursor of the open handle is a variable of this spec, not a      *)
 (*        field of the record.                                             *)
-(*  [op |-> "grid", ng, bounds, M, obs, exact]  grid positions returned by *)
-(*        gaussian_blurring for one frame, slot by slot, in units 1/M      *)
-(*        of the (integer, scaled) bounds                                  *)
-(*  [op |-> "blur", id, ng, bounds, S, H, ppp, pos, sig, cut]  one frame   *)
-(*        of a gaussian_blurring call on scaled-integer inputs (unit 1/S); *)
-(*        the expected slot values are printed as Real terms               *)
+(*  [op |-> "blur_open", ng, bs]  a gaussian_blurring call with ng points   *)
+(*        per axis on a trajectory whose frame f has the (integer, scaled) *)
+(*        box bounds bs[f] - every frame its own                           *)
+(*  [op |-> "grid", M, obs, exact]  the grid positions returned for the    *)
+(*        NEXT frame of that call, slot by slot, in units 1/M of the       *)
+(*        bounds.  Which frame that is, is a variable of this spec (the    *)
+(*        frame cursor gcur), not a field of the record: the grid must be  *)
+(*        the grid of the bounds of that frame and of no other             *)
+(*  [op |-> "blur", id, S, H, ppp, pos, sig, cut]  the frame whose grid    *)
+(*        was consumed last, on scaled-integer inputs (unit 1/S): its cell *)
+(*        and particles; the expected slot values are printed as terms     *)
 (*  [op |-> "window", T, ts, dt, period, prop, rows, centre, obs, oscale,  *)
 (*        exact]  one time_average call (obs = oscale * returned means)    *)
 (* A record is consumed iff Why(rec) = ""; otherwise bad names the clause. *)
@@ -27,8 +32,8 @@ EXTENDS CoarseGrain, TLC, Json, IOUtils
 
 Tr == ndJsonDeserialize(IOEnv.TRACE_FILE)
 
-VARIABLES l, bad, file, cursor
-vars == <<l, bad, file, cursor>>
+VARIABLES l, bad, file, cursor, traj, gcur
+vars == <<l, bad, file, cursor, traj, gcur>>
 
 \* ---- spatial average -------------------------------------------------
 MatchesFrame(rec, nb) ==
@@ -48,24 +53,36 @@ WhyFrame(rec) ==
   ELSE "SpatialMean"
 
 \* ---- grid --------------------------------------------------------------
+\* traj = [ng, bs] of the open call, gcur = frames of it whose grid has been consumed
+GridOf(f)  == LET g == FrameGrid(traj.ng, traj.bs[f]) IN [s \in 1..NPoints(traj.ng) |-> g[s - 1]]
 WhyGrid(rec) ==
-  LET P   == NPoints(rec.ng)
-      exp == [s \in 1..P |-> ScaledPoint(rec.ng, rec.bounds, Unflat(rec.ng, s - 1))]
-  IN  IF rec.M # GridScale(rec.ng) \/ Len(rec.obs) # P THEN "GridShape"
+  IF gcur >= Len(traj.bs) THEN "GridShape:more-frames-than-the-trajectory"
+  ELSE
+  LET P   == NPoints(traj.ng)
+      exp == GridOf(gcur + 1)
+  IN  IF rec.M # GridScale(traj.ng) \/ Len(rec.obs) # P THEN "GridShape"
       ELSE IF rec.exact # 1 THEN "EquallySpacedSpanningBounds"
       ELSE IF \A s \in 1..P : rec.obs[s] = exp[s] THEN ""
+      \* the grid of the bounds of ANOTHER frame of the trajectory (kept from an earlier frame, or taken from a later one)
+      ELSE IF \E g \in 1..Len(traj.bs) : g # gcur + 1 /\ rec.obs = GridOf(g) THEN "GridSpansFrameBounds:grid-of-another-frame"
       ELSE IF {rec.obs[s] : s \in 1..P} # {exp[s] : s \in 1..P}
               \/ \E s, t \in 1..P : s # t /\ rec.obs[s] = rec.obs[t]
            THEN (IF {rec.obs[s] : s \in 1..P} \subseteq {exp[s] : s \in 1..P}
                  THEN "FlatIndexIsBijection" ELSE "EquallySpacedSpanningBounds")
       ELSE "XSlowest"
+WhyOpen(rec) ==
+  IF Len(rec.ng) \in {2, 3} /\ Len(rec.bs) >= 1 /\ (\A f \in 1..Len(rec.bs) : Len(rec.bs[f]) = Len(rec.ng)) /\ (\A k \in 1..Len(rec.ng) : rec.ng[k] >= 1)
+  THEN "" ELSE "WellFormed"
 
-\* ---- blur: expected values as terms -------------------------------------
+\* ---- blur: expected values as terms (grid of the bounds of the frame under the cursor, minimum image in ITS cell) ----
 BlurExpect(rec) ==
-  LET cutS == <<rec.cut[1] * rec.S, rec.cut[2]>> IN
-  [s \in 1..NPoints(rec.ng) |->
-     LET pt   == Unflat(rec.ng, s - 1)
-         cl0  == Classify(rec.ng, rec.bounds, rec.H, rec.ppp, pt, rec.pos, cutS)
+  LET cutS == <<rec.cut[1] * rec.S, rec.cut[2]>>
+      ng   == traj.ng
+      bnd  == traj.bs[gcur]
+  IN
+  [s \in 1..NPoints(ng) |->
+     LET pt   == Unflat(ng, s - 1)
+         cl0  == Classify(ng, bnd, rec.H, rec.ppp, pt, rec.pos, cutS)
          cl   == [j \in 1..Len(cl0) |-> <<cl0[j][1], RDiv(cl0[j][2], <<rec.S * rec.S, 1>>)>>]
          ins  == SelectedIn(cl, {"in"})
          both == SelectedIn(cl, {"in", "edge"})
@@ -86,12 +103,13 @@ WhyWindow(rec) ==
 Why(rec) ==
   CASE rec.op = "sa_open"  -> IF \A f \in 1..Len(rec.file) : RowsOk(rec.file[f]) THEN "" ELSE "WellFormed"
     [] rec.op = "sa_frame" -> WhyFrame(rec)
+    [] rec.op = "blur_open" -> WhyOpen(rec)
     [] rec.op = "grid"     -> WhyGrid(rec)
-    [] rec.op = "blur"     -> ""
+    [] rec.op = "blur"     -> IF gcur >= 1 /\ Len(rec.H) = Len(traj.ng) THEN "" ELSE "WellFormed"
     [] rec.op = "window"   -> WhyWindow(rec)
     [] OTHER               -> "UnknownRecord"
 
-Init == l = 1 /\ bad = "" /\ file = << >> /\ cursor = 0
+Init == l = 1 /\ bad = "" /\ file = << >> /\ cursor = 0 /\ traj = [ng |-> << >>, bs |-> << >>] /\ gcur = 0
 Step ==
   /\ l <= Len(Tr) /\ bad = ""
   /\ LET rec == Tr[l]
@@ -101,7 +119,11 @@ Step ==
             THEN file' = [f \in 1..Len(rec.file) |-> CgOfRows(rec.file[f])] /\ cursor' = 0
             ELSE IF rec.op = "sa_frame" /\ w = "" THEN cursor' = cursor + 1 /\ UNCHANGED file
             ELSE UNCHANGED <<file, cursor>>
-         /\ (rec.op = "blur" => PrintT(ToJson([rec |-> rec.id, exp |-> BlurExpect(rec)])))
+         /\ IF rec.op = "blur_open" /\ w = ""    \* a new call: the frame cursor is on its first frame
+            THEN traj' = [ng |-> rec.ng, bs |-> rec.bs] /\ gcur' = 0
+            ELSE IF rec.op = "grid" /\ w = "" THEN gcur' = gcur + 1 /\ UNCHANGED traj
+            ELSE UNCHANGED <<traj, gcur>>
+         /\ ((rec.op = "blur" /\ w = "") => PrintT(ToJson([rec |-> rec.id, exp |-> BlurExpect(rec)])))
 Spec == Init /\ [][Step]_vars
 Accepted == bad = ""
 =============================================================================
